@@ -33,6 +33,32 @@ def install_source_patch(module_name, old, new, count=1):
     SourceFileLoader.get_code = get_code
 
 
+_LINECOV = {}
+
+
+def _start_linecov():
+    """Development aid (SYMX_LINECOV=<dir>): records which lines of mici's source a case executes (sys.monitoring, each
+    line reported once), so that code no check ever runs can be listed (bin/linecov_report.py).  Not used by the checks."""
+    mon = sys.monitoring
+    tool = mon.COVERAGE_ID
+    mon.use_tool_id(tool, "symx-linecov")
+
+    def on_line(code, line):
+        fn = code.co_filename
+        if "/mici/" in fn:
+            _LINECOV.setdefault(fn, set()).add(line)
+        return mon.DISABLE
+    mon.register_callback(tool, mon.events.LINE, on_line)
+    mon.set_events(tool, mon.events.LINE)
+
+
+def _dump_linecov(tag):
+    d = os.environ["SYMX_LINECOV"]
+    os.makedirs(d, exist_ok=True)
+    with open(os.path.join(d, tag.replace("/", "_")[:180] + f".{os.getpid()}.json"), "w") as f:
+        json.dump({k: sorted(v) for k, v in _LINECOV.items()}, f)
+
+
 def main():
     ap = argparse.ArgumentParser()
     ap.add_argument("pid")
@@ -44,6 +70,9 @@ def main():
     sys.setrecursionlimit(20000)
     out = {"case": a.case, "ok": False}
     t0 = time.time()
+    linecov = bool(os.environ.get("SYMX_LINECOV")) and not a.canary and not a.replay
+    if linecov:
+        _start_linecov()
     try:
         if a.canary:
             # canary descriptors live in a mici-free module part: harness.<pid>_canaries or harness.<pid>.CANARIES
@@ -77,6 +106,8 @@ def main():
         out["error"] = f"{type(e).__name__}: {e}"
         out["traceback"] = traceback.format_exc()[-4000:]
     out["worker_wall_s"] = round(time.time() - t0, 3)
+    if linecov:
+        _dump_linecov(f"{a.pid}.{a.case}")
     sys.stdout.flush()
     print(MARK + json.dumps(out, default=str))
     sys.stdout.flush()
